@@ -25,6 +25,10 @@ CLAIMED = {
    text="TLC checks on MuxBroker.tla that no reachable state has the expiry goroutine blocked under the broker lock, that every call returns (liveness under fairness, maximal-progress time) and that nothing is left waiting at the end of time, and confirms that the pre-fix variant of the model violates these. Histories of unmatched / duplicate / late / expiry-instant calls followed by a fresh pair are replayed on the real brokers with gates forcing the critical interleavings; a hang, a call that never returns, a goroutine left after Close, or a trace TLC rejects is a violation.",
    note="Trusted: yamux, net/rpc, synctest. The gRPC broker's liveness clauses are exercised by the C07/C08 drivers' timeout scenarios when those are built; this check decides the MuxBroker side."),
 
+ "C10": dict(cat="model_checking", design="§6 C10, §4.6",
+   technique="TLA+ LogStderr.tla (the stderr-to-log rule as a two-bit state machine vs. the property's level rule; TLC over all sequences of <= 3 line tokens); real Client with a scripted runner fed concretised stderr streams and post-handshake stdout volumes; per-line observations judged by TLC (TraceLogStderr.tla) replaying the model's state over each stream",
+   text="TLC checks for every sequence of up to three stderr line tokens (20 kinds: text, [LEVEL] prefixes, panic:, hclog JSON per level, JSON with unknown/no level, null, wrong field types, bad timestamp, arrays, scalars, broken JSON; fitting the buffer or not) that the code-shaped rule emits one record per line at a level the property allows and carries the JSON message or the line. Real Client runs (in-memory runner, successful handshake through an in-process RPC server) feed concretised streams for buffer sizes 16..65536, both terminators, unterminated last lines and several spellings per kind, plus up to 10 MiB of stdout after the handshake with line lengths up to 1 MiB; the bytes copied to ClientConfig.Stderr, the records of an hclog JSON logger (level, message, key/values, attribution of chunks to long lines), completion of both writers within 15 s and the survival of the host process are observed; TLC walks each stream with the model's state and judges every line.",
+   note="Terminators are normalised; for over-long lines only the verbatim copy and complete in-order emission at some level are required. A panic in the library's reader goroutine kills the driver process: the case is re-run alone and reported."),
  "C13": dict(cat="model_checking", design="§6 C13",
    technique="TLA+ Checksum.tla (Gate as the code's check order; launch enabled only by a passed check; TLC over all bit-string pairs); real Client.Start with SecureConfig on generated files, all single-bit flips / prefixes / extensions / empty / nil hash and tamper-after-ok histories; observations judged by TLC (TraceChecksum.tla)",
    text="TLC checks for all digests of 3 bits and all configured checksums of up to 4 bits, with and without a hash function, that the launch step is reachable only when the two are equal and that every other relation yields the corresponding error. The real Client.Start is run with a SecureConfig on generated executables (a script that records its own launch): the exact digest must launch; every one-bit flip at each of the digest's bit positions, every proper prefix, trailing bytes, empty/nil checksum, an unrelated checksum and a nil Hash must return the matching error with no launch, also 200 ms later; and a SecureConfig value reused after the file was changed in place (same length and mtime) must reject it. TLC maps each observation's class to a representative pair and judges it with Gate.",
